@@ -23,6 +23,7 @@ TOOLS = {
     "iface": ("Extract/IfaceExtract.v", "model", GENERIC),
     "valid": ("Extract/ValidExtract.v", "model", GENERIC),
     "irrun": ("Extract/IrRunExtract.v", "model", GENERIC),
+    "wgslrun": ("Extract/WgslRunExtract.v", "model", GENERIC),
     "glslrun": ("Extract/GlslRunExtract.v", "model", GENERIC),
     "mslrun": ("Extract/MslRunExtract.v", "model", GENERIC),
     "passmodel": ("Extract/PassExtract.v", "model", GENERIC),
